@@ -405,6 +405,29 @@ static void mode_full(Tape &t)
 				VF_CHECK(std::string(qa ? qa : "") == (r2.has_alpn ? r2.alpn : "") && std::string(qb ? qb : "") == (r2.has_alpn ? r2.alpn : ""), "%s: selected protocol '%s'/'%s', reference '%s' (resumed %d)", d2.c_str(),
 					qa ? qa : "(none)", qb ? qb : "(none)", r2.alpn.c_str(), (int)resumed);
 				stats.cls(resumed ? "F2:resumed" : "F2:full");
+				VF_CHECK(br_ssl_engine_get_ecdhe_curve(cl.eng) == br_ssl_engine_get_ecdhe_curve(sv.eng), "%s: the two sides report different ECDHE curves (%d / %d)", d2.c_str(), br_ssl_engine_get_ecdhe_curve(cl.eng), br_ssl_engine_get_ecdhe_curve(sv.eng));
+				// third connection: ANOTHER client context that was handed the session parameters (the documented way to
+				// carry a session over) resumes with the same server context: both sides still report the same values
+				br_ssl_session_parameters a3;
+				br_ssl_engine_get_session_parameters(cl.eng, &a3);
+				BearClient cl3(cp);
+				br_ssl_engine_set_session_parameters(cl3.eng, &a3);
+				cl3.prof.resume = true;
+				cl.close();
+				for (int i = 0; i < 2000; i++) if (!S2.round()) break;
+				VF_CHECK(cl3.reset() && sv.reset(), "%s: third reset failed", desc.c_str());
+				Session S3(&cl3, &sv);
+				S3.script[0].push_back(Item{ IT_WRITE, 10, true });
+				S3.script[1].push_back(Item{ IT_WRITE, 10, true });
+				S3.run(400000);
+				VF_CHECK(S3.established && cl3.error() == 0 && sv.error() == 0, "%s: third connection (session carried to another client context) failed (%d/%d)", d2.c_str(), cl3.error(), sv.error());
+				br_ssl_session_parameters b3;
+				br_ssl_engine_get_session_parameters(sv.eng, &b3);
+				br_ssl_engine_get_session_parameters(cl3.eng, &a3);
+				VF_CHECK(a3.version == b3.version && a3.cipher_suite == b3.cipher_suite && br_ssl_engine_get_version(cl3.eng) == br_ssl_engine_get_version(sv.eng), "%s: third connection: version/suite differ", d2.c_str());
+				VF_CHECK(br_ssl_engine_get_ecdhe_curve(cl3.eng) == br_ssl_engine_get_ecdhe_curve(sv.eng), "%s: third connection (%s): the client reports ECDHE curve %d, the server %d - a value left over from an earlier connection of that context", d2.c_str(),
+					memcmp(a3.master_secret, b3.master_secret, 48) == 0 && a3.session_id_len == a.session_id_len && memcmp(a3.session_id, a.session_id, a.session_id_len) == 0 ? "resumed" : "full", br_ssl_engine_get_ecdhe_curve(cl3.eng), br_ssl_engine_get_ecdhe_curve(sv.eng));
+				stats.cls("F3:carried-session");
 			}
 		}
 	}
